@@ -92,6 +92,24 @@ int main(int argc, char **argv) {
         }
       line(s);
     }
+    // every named update wrapper once, on its own element, with operands that tell the functors (and their operand order) apart:
+    // element 6, operand 4  ->  bit_and 4, bit_or 6, bit_xor 2, logical_and 1, logical_or 1, multiplies 24, divides 1, plus 10, minus 2,
+    // increment 7, decrement 5, set 4, unary (x -> 3x+1) 19, visit (v = v*10 + index) 6*10+i
+    {
+      const int NW = 14;
+      ygm::container::array<long> w(world, NW + 3, 6);
+      if (me == R - 1) {
+        w.async_bit_and(0, 4); w.async_bit_or(1, 4); w.async_bit_xor(2, 4); w.async_logical_and(3, 4); w.async_logical_or(4, 4);
+        w.async_multiplies(5, 4); w.async_divides(6, 4); w.async_plus(7, 4); w.async_minus(8, 4);
+        w.async_increment(9); w.async_decrement(10); w.async_set(11, 4);
+        w.async_unary_op_update_value(12, [](const long &x) { return 3 * x + 1; });
+        w.async_visit(13, [](const size_t i, long &v) { v = v * 10 + (long)i; });
+      }
+      std::string sw = "WR " + std::to_string(R) + " " + std::to_string(me) + " :";
+      w.for_all([&](const size_t idx, long &v) { sw += " " + std::to_string(idx) + "=" + std::to_string(v); });
+      line(sw);
+      world.cf_barrier();
+    }
   } else if (mode == "bag") {
     for (int T = 0; T <= maxv; ++T) {
       for (int placement = 0; placement < 4; ++placement) {
@@ -134,12 +152,27 @@ int main(int argc, char **argv) {
     keys.push_back(1 << 20);
     keys.push_back((1 << 20) + 5);
     keys.push_back(2147483647);
+    keys.push_back(-2147483647 - 1);          // hashes whose low 32 bits are 0x80000000 / all ones
+    keys.push_back(-2147483647);
+    keys.push_back(-1);
     std::string s = "HI " + std::to_string(R) + " " + std::to_string(me) + " :";
     for (int k : keys) {
       s += " " + std::to_string(k) + "," + std::to_string(std::hash<int>{}(k)) + "," + std::to_string(mi.owner(k)) + "," +
            std::to_string(ds.m_impl.owner(k)) + "," + std::to_string((int)mi.is_mine(k));
     }
     line(s);
+    {
+      // 64-bit keys around the 31 / 32 / 63-bit boundaries
+      ygm::container::map<long, int> ml(world);
+      ygm::container::set<long>      sl(world);
+      const long K64[] = {1L << 31, 3L << 31, (5L << 32) | 0x80000000L, 1L << 32, (1L << 32) + 1, (1L << 32) - 1, 0x7fffffffffffffffL,
+                          -0x7fffffffffffffffL - 1, -1L, (1L << 62) + 12345, 0xffffffffL * 3 + 1};
+      s = "HL " + std::to_string(R) + " " + std::to_string(me) + " :";
+      for (long k : K64)
+        s += " " + std::to_string(k) + "," + std::to_string(std::hash<long>{}(k)) + "," + std::to_string(ml.owner(k)) + "," +
+             std::to_string(sl.m_impl.owner(k)) + "," + std::to_string((int)ml.is_mine(k));
+      line(s);
+    }
     s = "HS " + std::to_string(R) + " " + std::to_string(me) + " :";
     for (int k = 0; k < 30; ++k) {
       std::string key = "key" + std::to_string(k * k) + (k % 3 ? "" : "_x");
